@@ -738,6 +738,7 @@ package ech
 //@   callsite "t.HTTP3Transport.RoundTrip(" requires[F:records-compatible] forall(k, 0, len(trOf(arg0).result.HTTPS), int(trOf(arg0).result.HTTPS[k].Priority) != 0 && offersH3(trOf(arg0).result.HTTPS[k]), trig(trOf(arg0).result.HTTPS[k]))
 //@   callsite "t.HTTPTransport.RoundTrip(" requires[F:records-compatible] forall(k, 0, len(trOf(arg0).result.HTTPS), int(trOf(arg0).result.HTTPS[k].Priority) != 0 &&
 //@       (len(trOf(arg0).result.HTTPS[k].ALPN) == 0 || !trOf(arg0).result.HTTPS[k].NoDefaultALPN || exists(q, 0, len(trOf(arg0).result.HTTPS[k].ALPN), trOf(arg0).result.HTTPS[k].ALPN[q] == "h2" || trOf(arg0).result.HTTPS[k].ALPN[q] == "http/1.1")), trig(trOf(arg0).result.HTTPS[k]))
+//@   at "return false" assert[F:kept-means-compatible] compat(hh, alpn, mustHave)
 //@   loop 1 "range res.HTTPS"
 //@     invariant[F:none-usable-yet] !useH3 && forall(j, 0, ri1, int(res.HTTPS[j].Priority) == 0 || (!offersH3(res.HTTPS[j]) && !offersOther(res.HTTPS[j])), trig(res.HTTPS[j]))
 //@   loop 2 "slices.DeleteFunc(result.HTTPS"
